@@ -21,7 +21,17 @@ ALLOWED_AXIOMS = set()
 EXTRA_TARGETS = ["Model/Units.vo"]
 TOL_MODEL_EXP = -12          # model vs implementation
 TOL_EXACT = Fraction(1, 10 ** 12)
-TOL_NIST_YEAR = {2014: Fraction(2, 10 ** 8), 2018: Fraction(5, 10 ** 9)}   # measured worst relationship rounding: 1.1e-8 (2014, 8-digit kelvin relationships), 4.8e-10 (2018)
+# Oracle tolerances by BRIDGE KIND (the non-energy dimension involved) and context, from the measured worst deviation of the
+# published '<a>-<b> relationship' constants of that kind from h, c, k, e, m_u, E_h of the same set (raw NIST text):
+#   2014: frequency 2.0e-10, wavenumber 8.7e-11 (2.9e-10 incl. Hz-1/m), mass 2.6e-10, temperature 9.1e-9 (1.1e-8 incl. K-Hz)
+#   2018: frequency 4.3e-10, wavenumber 2.7e-10, mass 3.5e-10 (4.8e-10 incl. kg-Hz), temperature 1.3e-10 (3.5e-10 incl. 1/m-K)
+TOL_KIND = {
+    2014: {"frequency": Fraction(1, 10 ** 9), "wavenumber": Fraction(1, 10 ** 9), "mass": Fraction(1, 10 ** 9), "temperature": Fraction(2, 10 ** 8)},
+    2018: {"frequency": Fraction(1, 10 ** 9), "wavenumber": Fraction(1, 10 ** 9), "mass": Fraction(1, 10 ** 9), "temperature": Fraction(1, 10 ** 9)},
+}
+# au_* units: the oracle computes them from e, a0, E_h, hbar, m_e; CODATA prints its own rounded value (measured worst 6.6e-10 per unit)
+TOL_AU = Fraction(5, 10 ** 9)
+TOL_NIST_YEAR = {y: max(TOL_KIND[y].values()) for y in TOL_KIND}      # loosest bound of the context (round trips, matcher slack)
 TRUSTED = [
     "pint (parser, alias/prefix resolution, UnitsContainer, Context graph search, plain conversion) is external code: modelled in "
     "coq/Model/Units.v, not verified; unit expressions are given to the model already resolved to pint's canonical (prefix, unit) names",
@@ -35,8 +45,11 @@ TRUSTED = [
 ASSUMPTIONS = [
     "unit expressions are products/quotients/integer powers of (prefix, unit) atoms and positive rational prefactors; offset units "
     "(degC, degF), logarithmic units and fractional exponents are outside the model",
-    "tolerances: model vs implementation relative 1e-12; independent-SI oracle 1e-12 for exact factors, 5e-9 (CODATA2018) / 2e-8 (CODATA2014, "
-    "whose kelvin relationships carry 8 digits) where NIST-rounded relationship constants or CODATA-rounded au_* values are involved",
+    "tolerances: model vs implementation relative 1e-12. Independent-SI oracle, by bridge kind: same dimension, energy<->energy/mol and "
+    "energy(/mol)<->frequency with a source naming no NIST unit (context's own h, N_A): 1e-12; bridges that may use a published relationship "
+    "constant: frequency/wavenumber/mass 1e-9 (measured worst 4.8e-10), temperature 2e-8 in CODATA2014 (8-digit kelvin relationships, measured "
+    "1.1e-8) and 1e-9 in CODATA2018; 5e-9 when a physics-derived au_* unit is involved (measured 6.6e-10 per unit); history/determinism "
+    "comparisons 1e-13 (pint's factor cache makes the last ulp history dependent)",
 ]
 
 _T = {}
@@ -132,11 +145,15 @@ def nist_value(raw, name):
 
 class SI:
     """SI magnitude (kg m s A K mol cd) and dimension of every unit the corpus uses, from physics, per CODATA year.
-    `rounded` marks units whose value is a CODATA-rounded decimal (tolerance 5e-9 instead of 1e-12)."""
+    The flag marks the au_* units, which the oracle derives from e, a0, E_h, hbar, m_e while CODATA prints its own rounded
+    value (tolerance TOL_AU). Units that ARE a CODATA constant (hartree, eV, bohr, u, m_e, e, N_A, k, h) carry the same decimal in the
+    implementation and in the oracle, so they are exact."""
 
     def __init__(self, raw, plain, prefixes, year=2018):
         v = lambda n: nist_value(raw, n)
         self.tol_nist = TOL_NIST_YEAR[year]
+        self.tol_kind = TOL_KIND[year]
+        self.year = year
         self.prefixes = prefixes
         self.c = v("speed of light in vacuum")
         self.h = v("Planck constant")
@@ -151,20 +168,20 @@ class SI:
         for n, (f, d) in plain.items():
             U[n] = (Fraction(f), tuple(d), False)
         J = D_ENERGY
-        U["hartree"] = (Eh, J, True)
-        U["electron_volt"] = (e, J, True)
-        U["bohr"] = (a0, (1, 0, 0, 0, 0, 0, 0), True)
-        U["electron_mass"] = (me, D_MASS, True)
-        U["atomic_mass_unit"] = (mu, D_MASS, True)
-        U["elementary_charge"] = (e, (0, 0, 1, 1, 0, 0, 0), True)
+        U["hartree"] = (Eh, J, False)
+        U["electron_volt"] = (e, J, False)
+        U["bohr"] = (a0, (1, 0, 0, 0, 0, 0, 0), False)
+        U["electron_mass"] = (me, D_MASS, False)
+        U["atomic_mass_unit"] = (mu, D_MASS, False)
+        U["elementary_charge"] = (e, (0, 0, 1, 1, 0, 0, 0), False)
         U["statcoulomb"] = (Fraction(1, 2997924580), (0, 0, 1, 1, 0, 0, 0), False)
         U["debye"] = (Fraction(1, 10 ** 21) / 299792458, (1, 0, 1, 1, 0, 0, 0), False)
         U["wavenumber"] = (Fraction(100), D_WAVEN, False)
         U["Angstrom"] = (Fraction(1, 10 ** 10), (1, 0, 0, 0, 0, 0, 0), False)
-        U["avogadro_constant"] = (self.NA, (0, 0, 0, 0, 0, -1, 0), True)
-        U["boltzmann_constant"] = (self.k, (2, 1, -2, 0, -1, 0, 0), True)
+        U["avogadro_constant"] = (self.NA, (0, 0, 0, 0, 0, -1, 0), False)
+        U["boltzmann_constant"] = (self.k, (2, 1, -2, 0, -1, 0, 0), False)
         U["speed_of_light"] = (self.c, (1, 0, -1, 0, 0, 0, 0), False)
-        U["plancks_constant"] = (self.h, (2, 1, -1, 0, 0, 0, 0), True)
+        U["plancks_constant"] = (self.h, (2, 1, -1, 0, 0, 0, 0), False)
 
         def mk(mag, exps):          # exps of (e, a0, Eh, hbar, me) ; dimension from those
             dims = {"e": (0, 0, 1, 1, 0, 0, 0), "a0": (1, 0, 0, 0, 0, 0, 0), "Eh": J, "hbar": (2, 1, -1, 0, 0, 0, 0), "me": D_MASS}
@@ -231,16 +248,32 @@ class SI:
             return m / self.NA
         return None
 
+    def names_nist(self, e):
+        """Does the expression name (as a factor, any exponent) a unit whose canonical name contains a NIST relationship unit
+        name, or a bare meter?  Only then can a published (rounded) relationship constant enter on the source side."""
+        return any(any(x in p + u for x in NIST_UNITS) or (p + u == "meter") for p, u in atoms_of(e))
+
     def expected(self, a, b):
-        """('value', Fraction, tol) | ('unrelated',) | ('twohop', Fraction, tol)"""
+        """('value', Fraction, tol) | ('unrelated',) | ('twohop', Fraction, tol)
+        Tolerance: same dimension: 1e-12 (5e-9 if a physics-derived au_* unit is involved). Bridges: energy(/mol) <-> frequency with a
+        source that names no NIST unit goes through the context's own h (and N_A) only: 1e-12; every other bridge may go through a
+        published relationship constant of that KIND: TOL_KIND[year][kind]."""
         ma, da, ra = self.md(a)
         mb, db, rb = self.md(b)
+        au = TOL_AU if (ra or rb) else Fraction(0)
         if da == db:
-            return ("value", ma / mb, self.tol_nist if (ra or rb) else TOL_EXACT)
+            return ("value", ma / mb, max(TOL_EXACT, au))
         if da in BRIDGED and db in BRIDGED:
             val = self.energy_equiv(ma, da) / self.energy_equiv(mb, db)
-            direct = D_ENERGY in (da, db) or D_EMOL in (da, db)
-            return ("value" if direct else "twohop", val, self.tol_nist)
+            kinds = [BRIDGED[d] for d in (da, db) if BRIDGED[d] not in ("energy", "energy/mol")]
+            direct = len(kinds) <= 1
+            if not kinds:
+                tol = TOL_EXACT                                  # energy <-> energy/mol: N_A of the context only
+            elif kinds == ["frequency"] and not self.names_nist(a):
+                tol = TOL_EXACT                                  # default route through the context's h
+            else:
+                tol = max(self.tol_kind[k] for k in kinds)
+            return ("value" if direct else "twohop", val, max(tol, au))
         return ("unrelated",)
 
 
@@ -387,7 +420,7 @@ def compound_exprs():
         "charge": [MUL(A("ampere"), s), MUL(N(2), A("elementary_charge")), MUL(A("au_current"), A("au_time"))],
         "energy": [MUL(A("newton"), m), DIV(MUL(kg, POW(m, 2)), POW(s, 2)), MUL(A("watt"), s), MUL(A("volt"), A("coulomb")),
                    MUL(N("0.5"), A("hartree")), MUL(A("au_force"), A("bohr")), MUL(A("calorie", "kilo"), N(1)),
-                   MUL(A("pascal"), POW(m, 3)), DIV(POW(A("elementary_charge"), 2), MUL(A("au_permittivity"), A("bohr")))],
+                   MUL(A("pascal"), POW(m, 3)), MUL(A("watt", "kilo"), A("hour")), DIV(POW(A("elementary_charge"), 2), MUL(A("au_permittivity"), A("bohr")))],
         "force": [DIV(A("hartree"), A("bohr")), DIV(MUL(kg, m), POW(s, 2)), DIV(A("electron_volt"), A("angstrom")), DIV(A("joule"), m)],
         "pressure": [DIV(A("newton"), POW(m, 2)), DIV(A("hartree"), POW(A("bohr"), 3)), MUL(N(1000), A("pascal", "giga")),
                      DIV(A("electron_volt"), POW(A("angstrom"), 3))],
@@ -517,6 +550,65 @@ ALIAS_TARGETS = ["hartree", "joule", "meter", "kilogram", "coulomb", "hertz", "k
                  "((joule) / (mole))", "((coulomb) * (meter))"]
 
 
+# ---- history stream: texts that collide under whitespace removal / case folding / alias spelling, with their meaning
+_s_1 = POW(A("second"), -1)
+HISTORY_GROUPS = [
+    # (group of (text, expression), targets (text, expression))
+    ([("ms^-1", POW(A("second", "milli"), -1)), ("m s^-1", MUL(A("meter"), POW(A("second"), -1)))],
+     [("Hz", A("hertz")), ("m/s", DIV(A("meter"), A("second")))]),
+    ([("min", A("minute")), ("m in", MUL(A("meter"), A("inch")))],
+     [("s", A("second")), ("m^2", POW(A("meter"), 2))]),
+    ([("mK", A("kelvin", "milli")), ("MK", A("kelvin", "mega")), ("m K", MUL(A("meter"), A("kelvin")))],
+     [("K", A("kelvin")), ("hartree", A("hartree"))]),
+    ([("mJ", A("joule", "milli")), ("MJ", A("joule", "mega")), ("m J", MUL(A("meter"), A("joule")))],
+     [("J", A("joule")), ("cal", A("calorie"))]),
+    ([("mm", A("meter", "milli")), ("Mm", A("meter", "mega")), ("m m", MUL(A("meter"), A("meter")))],
+     [("m", A("meter")), ("bohr", A("bohr")), ("m^2", POW(A("meter"), 2))]),
+    ([("Pa", A("pascal")), ("pA", A("ampere", "pico")), ("P a", None)],
+     [("Pa", A("pascal")), ("A", A("ampere"))]),
+    ([("mHz", A("hertz", "milli")), ("MHz", A("hertz", "mega")), ("m Hz", MUL(A("meter"), A("hertz")))],
+     [("Hz", A("hertz")), ("m/s", DIV(A("meter"), A("second")))]),
+    ([("cal", A("calorie")), ("kcal", A("calorie", "kilo")), ("k cal", None)],
+     [("J", A("joule")), ("Hz", A("hertz"))]),
+    ([("eV", A("electron_volt")), ("electron_volt", A("electron_volt")), ("e V", MUL(A("elementary_charge"), A("volt"))), ("EV", None)],
+     [("J", A("joule")), ("hartree", A("hartree"))]),
+    ([("kcal/mol", DIV(A("calorie", "kilo"), A("mole"))), ("kcal / mol", DIV(A("calorie", "kilo"), A("mole"))),
+      ("kilocalorie/mole", DIV(A("calorie", "kilo"), A("mole"))), ("kcal/mol ", DIV(A("calorie", "kilo"), A("mole")))],
+     [("hartree", A("hartree")), ("1/cm", DIV(N(1), A("meter", "centi"))), ("Hz", A("hertz"))]),
+    ([("1/s", DIV(N(1), A("second"))), ("1 / s", DIV(N(1), A("second"))), ("1/ms", DIV(N(1), A("second", "milli"))), ("1/m s", MUL(DIV(N(1), A("meter")), A("second")))],
+     [("J", A("joule")), ("Hz", A("hertz"))]),
+    ([("hartree", A("hartree")), ("Hartree", None), ("E_h", A("hartree")), ("au_energy", A("hartree"))],
+     [("eV", A("electron_volt")), ("kcal/mol", DIV(A("calorie", "kilo"), A("mole")))]),
+    ([("kWh", MUL(A("watt", "kilo"), A("hour"))), ("kW h", MUL(A("watt", "kilo"), A("hour"))), ("kW*h", MUL(A("watt", "kilo"), A("hour")))],
+     [("J", A("joule")), ("Hz", A("hertz")), ("1/cm", DIV(N(1), A("meter", "centi")))]),
+]
+
+
+def same_answer(o1, o2):
+    """Equal answers up to binary64 noise: pint caches intermediate factors, so the last ulp may depend on what was converted
+    before (observed: 1 ulp); anything beyond 1e-13 relative, or a different exception class, is a real difference."""
+    if o1[0] == "val" and o2[0] == "val":
+        return abs(o1[1] - o2[1]) <= 1e-13 * max(abs(o1[1]), abs(o2[1]))
+    return o1 == o2
+
+
+def fresh_context(year):
+    from qcelemental.physical_constants import PhysicalConstantsContext
+    return PhysicalConstantsContext(f"CODATA{year}")
+
+
+def history_calls(order):
+    """The sequence of (source text, source expr, target text, target expr) calls for one ordering of the groups' members."""
+    seq = []
+    for members, targets in HISTORY_GROUPS:
+        ms = list(members) if order == 0 else list(reversed(members))
+        for tt, te in targets:
+            for mt, me in ms:
+                seq.append((mt, me, tt, te))
+                seq.append((tt, te, mt, me))
+    return seq
+
+
 def correspond(ctx):
     corr = Corr()
     corr.rule = ("per dimension (length, mass, time, charge, energy, energy/mol, dipole, force, pressure, frequency, wavenumber, temperature): all "
@@ -644,9 +736,63 @@ def correspond(ctx):
                         corr.failures.append({"stream": "oracle:spelling", "case": {"year": year, "a": x1, "b": x2, "canon_a": y1, "canon_b": y2},
                                               "what": f"spelling {x1!r}->{x2!r} gives {o1}, canonical spelling gives {o2}", "observed": [o1, o2]})
     corr.sample({"year": 2014, "from": "megahertz", "to": "hartree", "impl": answers[(2014, "megahertz", "hartree")][1]})
+    # history stream: colliding spellings issued in both orders, each order on its OWN fresh context object; every answer is judged
+    # by the oracle (and below by the model) and the two orders must agree call by call
+    hist_terms = []
+    for year in (2014, 2018):
+        per_order = []
+        for order in (0, 1):
+            try:
+                cobj = fresh_context(year)
+            except Exception as e:
+                corr.failures.append({"stream": "oracle:history", "case": {"year": year, "a": "", "b": ""}, "what": f"fresh context failed: {e!r}", "observed": repr(e), "details": {}})
+                continue
+            seq = history_calls(order)
+            got = {}
+            done = []
+            for st, se, tt, te in seq:
+                out = impl_call(cobj, st, tt)
+                corr.count("history")
+                prelude = list(done[-40:])
+                done.append([st, tt])
+                got[(st, tt)] = out
+                if se is None or te is None:
+                    # a spelling that is no unit at all, or a unit of a dimension unrelated to every target of its group: any number is wrong
+                    if out[0] == "val":
+                        corr.failures.append({"stream": "oracle:history", "case": {"year": year, "a": st, "b": tt, "prelude": prelude, "must_fail": True},
+                                              "what": f"{st!r} -> {tt!r} returned {out[1]!r} although {st!r}/{tt!r} is no unit of a related dimension", "observed": out, "details": {}})
+                    continue
+                bad = judge(si[year], se, te, out, rerun=lambda x, y_, _c=ctxs[year]: impl_call(_c, render(x), render(y_)))
+                if bad:
+                    corr.failures.append({"stream": "oracle:history", "case": {"year": year, "a": st, "b": tt, "ea": se, "eb": te, "prelude": prelude},
+                                          "what": "after earlier calls on the same context: " + bad[0], "observed": out, "details": bad[1]})
+                et = expect_term(out)
+                if et is not None and order == 0:
+                    hist_terms.append((f"({cz(year)}, {cexpr(se)}, {cexpr(te)}, {et})", {"year": year, "a": st, "b": tt, "ea": se, "eb": te, "prelude": prelude}, out))
+            per_order.append(got)
+        if len(per_order) == 2:
+            for k, o0 in per_order[0].items():
+                o1 = per_order[1].get(k)
+                if o1 is not None and not same_answer(o0, o1):
+                    corr.failures.append({"stream": "oracle:history", "case": {"year": year, "a": k[0], "b": k[1], "order_dependent": True},
+                                          "what": f"{k[0]!r} -> {k[1]!r} gives {o0} or {o1} depending on which colliding spelling was asked first", "observed": [o0, o1], "details": {}})
+    # determinism: re-issue a shuffled sample of the earlier cases on the long-lived contexts and on fresh ones
+    keys = [k for k in answers]
+    ctx.rng.shuffle(keys)
+    fresh = {y: fresh_context(y) for y in (2014, 2018)}
+    for n_, (year, sa, sb) in enumerate(keys[:4000 if ctx.thorough else 1500]):
+        again = impl_call(ctxs[year], sa, sb)
+        corr.count("determinism")
+        other = impl_call(fresh[year], sa, sb) if n_ < 400 else again
+        if not same_answer(again, answers[(year, sa, sb)]) or not same_answer(other, again):
+            corr.failures.append({"stream": "oracle:history", "case": {"year": year, "a": sa, "b": sb, "determinism": True},
+                                  "what": f"same request answered {answers[(year, sa, sb)]} first, {again} later, {other} on a fresh context", "observed": [answers[(year, sa, sb)], again, other], "details": {}})
     if tr.get("gen_failed"):
         corr.notes.append("translation failed (" + tr["gen_failed"][:200] + "); model not evaluated, oracle only")
         return corr
+    for t, case, out in hist_terms:
+        terms.append(t)
+        meta.append((case, out, "history"))
     ctx.log(f"{len(terms)} conversions through the implementation; evaluating the model")
     bad, errors = coqrun.eval_bad_indices("C03", ["QV.Common.Outcome", "QV.Common.UnitsC03", "QV.Model.Units"], "", "check_case", terms,
                                           shard=1000, ty="Z * uexpr * uexpr * cexpect")
@@ -658,7 +804,8 @@ def correspond(ctx):
         corr.disagreements.append({"stream": stream, "case": case, "impl": out, "model": got})
     if len(bad) > 8:
         corr.notes.append(f"{len(bad)} disagreements in total; first 8 listed")
-    corr.notes.append("tolerances: model vs implementation 1e-12 relative; oracle 1e-12 (exact factors) / 5e-9 (CODATA- or NIST-rounded constants)")
+    corr.notes.append("tolerances: model vs implementation 1e-12 relative; oracle by bridge kind: 1e-12 (same dimension, energy/mol, default-route "
+                      "frequency), 1e-9 (frequency/wavenumber/mass via published relationships; temperature 2018), 2e-8 (temperature 2014), 5e-9 (au_* units)")
     return corr
 
 
@@ -672,7 +819,16 @@ def _rejudge(ctx, case):
     year = case["year"]
     si = SI(raw[year], plain, prefixes, year)
     cobj = contexts()[year]
+    if case.get("prelude") is not None:
+        cobj = fresh_context(year)               # history case: replay the earlier calls on a fresh context first
+        for pa, pb in case["prelude"]:
+            impl_call(cobj, pa, pb)
     out = impl_call(cobj, case["a"], case["b"])
+    if case.get("must_fail"):
+        return out, (("a number was returned although one side is not a unit expression", {}) if out[0] == "val" else None)
+    if case.get("order_dependent") or case.get("determinism"):
+        o2 = impl_call(fresh_context(year), case["a"], case["b"])
+        return out, (None if same_answer(out, o2) else ("answer differs between contexts with different histories", {}))
 
     def tup(e):
         if isinstance(e, (list, tuple)):
@@ -781,7 +937,9 @@ LEVEL_NOTE = (
     "resolved to canonical (prefix, unit) atoms, and tied only by correspondence (about 15k conversions per quick run, 0 tolerance beyond 1e-12 "
     "relative because the model is exact and the implementation binary64). Plain SI/imperial unit factors/dimensions and the prefix table are "
     "trusted data read from the installed pint at translate time. Tolerances: model vs implementation 1e-12; oracle vs implementation 1e-12 for "
-    "exact factors, 5e-9 (2018) / 2e-8 (2014) where NIST/CODATA-rounded constants enter. Bridge theorems beyond the algebraic laws are finite "
+    "exact factors and default-route frequency bridges, 1e-9 for frequency/wavenumber/mass bridges through published relationships, 2e-8 (2014) / 1e-9 "
+    "(2018) for temperature bridges, 5e-9 with au_* units. A history stream issues colliding spellings in both orders on fresh context objects and "
+    "re-issues a shuffled sample at the end (state/caching). Bridge theorems beyond the algebraic laws are finite "
     "(vm_compute over the shipped relationship table) except the characterisation of the known finding, which is universal in the target "
     "expression. Not modelled: offset/logarithmic units, fractional exponents, pint's tokenizer, X->energy->Y chains through two named "
     "transformers are modelled (they raise) but the property does not require them. The compound-source bridge (a NIST unit as one factor of a "
